@@ -7,6 +7,7 @@ import common
 import ledger
 import proto
 import send
+import fn
 from common import Outcome, log, run_tlc, write_evidence
 
 # property -> list of (module, cfg, workers, timeout_quick, timeout_thorough) exhaustive design-level models
@@ -15,7 +16,7 @@ _IX_T = _IX + [("Indexer.tla", "Indexer_c.cfg", 8, 1800, 1800), ("Indexer.tla", 
 LEVEL_A = {"C12": _IX, "C13": _IX, "C14": _IX}
 LEVEL_A_THOROUGH = {"C12": _IX_T, "C13": _IX_T, "C14": _IX_T}
 
-LEVELS = {"C20": "model_checking", "C12": "model_checking", "C13": "fault_enumeration", "C14": "model_checking"}
+LEVELS = {"C26": "model_checking", "C29": "model_checking", "C20": "model_checking", "C12": "model_checking", "C13": "fault_enumeration", "C14": "model_checking"}
 
 ASSUME_PROTO = [
     "content equality is judged on a digest of every table row except WRITE_TRANSACTION_STARTING_BLOCK_COUNT_TO_TIMESTAMP "
@@ -63,6 +64,10 @@ def run(prop, tier, seed, t0):
     elif prop in ("C12", "C13", "C14"):
         outcome, cov, wall = proto.run(prop, tier, seed)
         assumptions = ASSUME_PROTO
+    elif prop in fn.FAMILY:
+        outcome, cov, wall = fn.run(prop, tier, seed)
+        assumptions = ["the harness encodes big numbers as base-10^4 limbs and strings as code arrays (projection only)",
+                       "TLC evaluates spec/OrdNumbers.tla with exact arithmetic (spec/BigNat.tla)"]
     elif prop == "C20":
         outcome, cov, wall = send.run(prop, tier, seed)
         assumptions = ["all wallet scripts are taproot (the wallet only creates taproot descriptors); recipient is a taproot address",
@@ -72,13 +77,13 @@ def run(prop, tier, seed, t0):
         raise common.ToolError("no check registered for %s" % prop)
     states, distinct, runs = level_a(prop, tier)
     level = LEVELS.get(prop, "exploration")
-    if prop == "C20":
+    if prop == "C20" or prop in fn.FAMILY:
         pass
     elif runs:
         cov["states"] = distinct
         cov["transitions"] = states
         cov["level_a_models"] = runs
-    elif level == "model_checking" and prop != "C20":
+    elif level == "model_checking" and prop != "C20" and "states" not in cov:
         level = "exploration"
     rc = outcome.finish()
     write_evidence(prop, tier, seed, level, cov, assumptions, time.time() - t0, len(outcome.violations))
